@@ -66,6 +66,12 @@ def OpT (T : TRec → Prop) : Op → Prop
 /-- two fractions denote the same rational (neither is smaller) -/
 def Q.veq (a b : Q) : Prop := Q.lt a b = false ∧ Q.lt b a = false
 
+/-- two optional lengths are both absent, or denote the same rational -/
+def veqO : Option Frac → Option Frac → Prop
+  | none, none => True
+  | some x, some y => x.num * y.den = y.num * x.den
+  | _, _ => False
+
 /-- (stored topology, credibility score) of every tree of a collection, in order -/
 def TA.scored (a : TA) : List (List Nat × Q) := a.rows.map fun r => (r.1, treeScore a.sd r.2.2.1 r.1)
 
@@ -1689,6 +1695,140 @@ theorem collateX_of_buildParts (f : Flags) : ∀ (parts : List (Option Bool × L
         | error e => rfl
         | ok m1 => exact collateX_of_buildParts f ps ws' m1 h2
 
+theorem qsumSq_perm {a b : List Frac} (h : a.Perm b) : qsumSq a = qsumSq b := by
+  induction h with
+  | nil => rfl
+  | cons x _ ih => simp only [qsumSq, ih]
+  | swap x y l => simp only [qsumSq]; exact add_left_comm _ _ _
+  | trans _ _ ih1 ih2 => exact ih1.trans ih2
+
+theorem varOf_perm {a b : List Frac} (h : a.Perm b) : varOf a = varOf b := by
+  simp only [varOf, h.length_eq, qsumSq_perm h, qsumF_perm h]
+
+/-- `a ≤ b` for two lengths, as rationals -/
+def LF (a b : Frac) : Prop := L (Q.ofFrac a) (Q.ofFrac b)
+
+theorem LF_refl (a : Frac) : LF a a := by simp [LF, L]
+
+theorem LF_of_not_lt {a b : Frac} (h : Frac.lt a b = false) : LF b a := by
+  simp only [Frac.lt, decide_eq_false_iff_not, not_lt] at h
+  simpa [LF, L, Q.ofFrac] using h
+
+theorem LF_of_lt {a b : Frac} (h : Frac.lt a b = true) : LF a b := by
+  simp only [Frac.lt, decide_eq_true_eq] at h
+  simpa [LF, L, Q.ofFrac] using le_of_lt h
+
+theorem LF_trans {a b c : Frac} (hb : 0 < b.den) (h1 : LF a b) (h2 : LF b c) : LF a c :=
+  L_trans (b := Q.ofFrac b) (by simpa [Q.ofFrac] using hb) h1 h2
+
+theorem minF_spec : ∀ (l : List Frac), (∀ x ∈ l, 0 < x.den) →
+    (l = [] → minF l = none) ∧ (l ≠ [] → ∃ m, minF l = some m ∧ m ∈ l ∧ ∀ x ∈ l, LF m x)
+  | [], _ => ⟨fun _ => rfl, fun h => absurd rfl h⟩
+  | f :: r, hp => by
+    refine ⟨fun h => absurd h (by simp), fun _ => ?_⟩
+    obtain ⟨ih1, ih2⟩ := minF_spec r (fun x hx => hp x (by simp [hx]))
+    cases r with
+    | nil => exact ⟨f, by simp [minF], by simp, by intro x hx; simp at hx; subst hx; exact LF_refl _⟩
+    | cons g r' =>
+      obtain ⟨m, hm, hmem, hle⟩ := ih2 (by simp)
+      have hmd : 0 < m.den := hp m (by simp [hmem])
+      simp only [minF] at hm ⊢
+      rw [hm]
+      by_cases hlt : Frac.lt m f = true
+      · refine ⟨m, by simp [hlt], by simp [hmem], ?_⟩
+        intro x hx
+        rcases List.mem_cons.1 hx with rfl | hx
+        · exact LF_of_lt hlt
+        · exact hle x hx
+      · have hlt' : Frac.lt m f = false := by simpa using hlt
+        refine ⟨f, by simp [hlt'], by simp, ?_⟩
+        intro x hx
+        rcases List.mem_cons.1 hx with rfl | hx
+        · exact LF_refl _
+        · exact LF_trans hmd (LF_of_not_lt hlt') (hle x hx)
+
+theorem maxF_spec : ∀ (l : List Frac), (∀ x ∈ l, 0 < x.den) →
+    (l = [] → maxF l = none) ∧ (l ≠ [] → ∃ m, maxF l = some m ∧ m ∈ l ∧ ∀ x ∈ l, LF x m)
+  | [], _ => ⟨fun _ => rfl, fun h => absurd rfl h⟩
+  | f :: r, hp => by
+    refine ⟨fun h => absurd h (by simp), fun _ => ?_⟩
+    obtain ⟨ih1, ih2⟩ := maxF_spec r (fun x hx => hp x (by simp [hx]))
+    cases r with
+    | nil => exact ⟨f, by simp [maxF], by simp, by intro x hx; simp at hx; subst hx; exact LF_refl _⟩
+    | cons g r' =>
+      obtain ⟨m, hm, hmem, hle⟩ := ih2 (by simp)
+      have hmd : 0 < m.den := hp m (by simp [hmem])
+      simp only [maxF] at hm ⊢
+      rw [hm]
+      by_cases hlt : Frac.lt f m = true
+      · refine ⟨m, by simp [hlt], by simp [hmem], ?_⟩
+        intro x hx
+        rcases List.mem_cons.1 hx with rfl | hx
+        · exact LF_of_lt hlt
+        · exact hle x hx
+      · have hlt' : Frac.lt f m = false := by simpa using hlt
+        refine ⟨f, by simp [hlt'], by simp, ?_⟩
+        intro x hx
+        rcases List.mem_cons.1 hx with rfl | hx
+        · exact LF_refl _
+        · exact LF_trans hmd (hle x hx) (LF_of_not_lt hlt')
+
+theorem addTree_ok_rooting {a a' : TA} {t : TRec} {idx : Option Int} (h : addTree a t idx = .ok a') :
+    validateRooting a.rooting t.rooted = some a'.rooting := by
+  simp only [addTree] at h
+  split at h
+  · cases h
+  · rename_i r hr
+    split at h
+    · cases h
+    · split at h <;> (cases h; exact hr)
+
+/-- accession that succeeds has seen trees of one rooting state only -/
+theorem addAll_ok_one_rooting : ∀ (ts : List TRec) (a a' : TA), addAll a ts = .ok a' → (∀ t ∈ ts, t.rooted ≠ none) →
+    (∀ ρ, a.rooting = some ρ → ∀ t ∈ ts, t.rooted = some ρ) ∧
+    (a.rooting = none → ∀ t ∈ ts, ∀ u ∈ ts, t.rooted = u.rooted)
+  | [], _, _, _, _ => ⟨by simp, by simp⟩
+  | t :: ts, a, a', h, hd => by
+    simp only [addAll] at h
+    cases h1 : addTree a t none with
+    | error e => simp [h1] at h
+    | ok a1 =>
+      simp only [h1] at h
+      have hv := addTree_ok_rooting h1
+      obtain ⟨b, htb⟩ : ∃ b, t.rooted = some b := by
+        cases hb : t.rooted with
+        | none => exact absurd hb (hd t (by simp))
+        | some b => exact ⟨b, rfl⟩
+      have ha1 : a1.rooting = some b := by
+        simp only [validateRooting] at hv
+        cases hr : a.rooting with
+        | none => simp [hr] at hv; rw [← hv, htb]
+        | some r =>
+          simp only [hr] at hv
+          split at hv
+          · rename_i heq
+            have : t.rooted = some r := by simpa using heq
+            rw [htb] at this; cases this
+            simpa using hv.symm
+          · cases hv
+      obtain ⟨ih1, _⟩ := addAll_ok_one_rooting ts a1 a' h (fun x hx => hd x (by simp [hx]))
+      have hall : ∀ x ∈ t :: ts, x.rooted = some b := by
+        intro x hx
+        rcases List.mem_cons.1 hx with rfl | hx
+        · exact htb
+        · exact ih1 b ha1 x hx
+      constructor
+      · intro ρ hρ
+        simp only [validateRooting, hρ] at hv
+        split at hv
+        · rename_i heq
+          have : t.rooted = some ρ := by simpa using heq
+          rw [htb] at this; cases this
+          exact hall
+        · cases hv
+      · intro _ x hx u hu
+        rw [hall x hx, hall u hu]
+
 theorem run_ghost {ρ : Option Bool} {fl : Flags} (ops : List Op) : ∀ (regs : List TA) (g : List (List TRec)),
     List.Forall₂ (TARep ρ fl) regs g → (∀ op ∈ ops, OpOK ρ fl op) →
     List.Forall₂ (TARep ρ fl) (run regs ops).1 (ops.foldl ghostStep g) ∧
@@ -2181,8 +2321,8 @@ theorem proto_bridge (nw nfiles : Nat) :
     C06Kernels.extendIsUpdate = true ∧ C06Kernels.iaddIsExtend = true ∧
     (initP C06Kernels.workerGetBlocks nw nfiles).inflight =
       (C06Kernels.initialQueue nw nfiles).map (fun o => match o with | some k => Item.file k | none => Item.stop) ∧
-    (initP C06Kernels.workerGetBlocks nw nfiles).ws.length = C06Kernels.workersStarted nw ∧
-    C06Kernels.resultsAwaited nw = (initP C06Kernels.workerGetBlocks nw nfiles).ws.length := by
+    (initP C06Kernels.workerGetBlocks nw nfiles).ws.length = C06Kernels.workersStarted nw nfiles ∧
+    C06Kernels.resultsAwaited nw nfiles = (initP C06Kernels.workerGetBlocks nw nfiles).ws.length := by
   refine ⟨rfl, rfl, rfl, rfl, rfl, rfl, rfl, rfl, ?_, ?_, ?_⟩
   · simp [initP, C06Kernels.initialQueue, C06Kernels.workerGetBlocks, C06Kernels.markersPosted, List.map_map, Function.comp_def]
   · simp [initP, C06Kernels.workersStarted]
@@ -2333,6 +2473,105 @@ theorem sumtrees_burnin_schedule_independent (ρ : Option Bool) (fl : Flags) (r 
   · simp only [runSerialB, ← hb2]
     exact hs
 
+/-! ### spread of the per-split summaries; how many results the parent waits for -/
+
+/-- **spread_of_obs** (clause c, summaries on the summary tree): the sample variance (`var`, and hence `sd` = its square root) of the
+edge lengths and of the node ages collected for a split — computed exactly, `(n·Σx² − (Σx)²)/(n·(n−1))` over un-normalised fractions —
+is literally a function of the observable. -/
+theorem spread_of_obs {a b : SD} (h : ObsEq a b) (s : Nat) : a.varLen s = b.varLen s ∧ a.varAge s = b.varAge s := by
+  obtain ⟨_, _, pl, pa⟩ := h.2.2.2.2 s
+  exact ⟨varOf_perm pl, varOf_perm (pa.filterMap id)⟩
+
+/-- the minimum and the maximum of two lists holding the same values in different orders denote the same rationals -/
+theorem range_of_perm {l1 l2 : List Frac} (hp : l1.Perm l2) (hpos : ∀ x ∈ l1, 0 < x.den) :
+    veqO (minF l1) (minF l2) ∧ veqO (maxF l1) (maxF l2) := by
+  have hpos2 : ∀ x ∈ l2, 0 < x.den := fun x hx => hpos x (hp.mem_iff.2 hx)
+  obtain ⟨a1, a2⟩ := minF_spec l1 hpos
+  obtain ⟨b1, b2⟩ := minF_spec l2 hpos2
+  obtain ⟨c1, c2⟩ := maxF_spec l1 hpos
+  obtain ⟨d1, d2⟩ := maxF_spec l2 hpos2
+  by_cases he : l1 = []
+  · have he2 : l2 = [] := by subst he; exact hp.nil_eq.symm
+    rw [a1 he, b1 he2, c1 he, d1 he2]; exact ⟨trivial, trivial⟩
+  · have he2 : l2 ≠ [] := by intro e; subst e; exact he hp.eq_nil
+    obtain ⟨m1, e1, mem1, le1⟩ := a2 he
+    obtain ⟨m2, e2, mem2, le2⟩ := b2 he2
+    obtain ⟨M1, f1, Mem1, ge1⟩ := c2 he
+    obtain ⟨M2, f2, Mem2, ge2⟩ := d2 he2
+    rw [e1, e2, f1, f2]
+    have h1 := le1 m2 (hp.mem_iff.2 mem2)
+    have h2 := le2 m1 (hp.mem_iff.1 mem1)
+    have h3 := ge1 M2 (hp.mem_iff.2 Mem2)
+    have h4 := ge2 M1 (hp.mem_iff.1 Mem1)
+    simp only [LF, L, Q.ofFrac] at h1 h2 h3 h4
+    exact ⟨le_antisymm h1 h2, le_antisymm h4 h3⟩
+
+/-- **range_of_obs** (clause c): `range` = (minimum, maximum) of the edge lengths and of the node ages collected for a split is a
+function of the observable, as rational numbers (the fractions stored have positive denominators: all `Frac.parse` delivers). -/
+theorem range_of_obs {a b : SD} (h : ObsEq a b) (s : Nat) (hl : ∀ x ∈ getL s a.lens, 0 < x.den)
+    (ha : ∀ x ∈ (getL s a.ages).filterMap id, 0 < x.den) :
+    veqO (a.rangeLen s).1 (b.rangeLen s).1 ∧ veqO (a.rangeLen s).2 (b.rangeLen s).2 ∧
+    veqO (a.rangeAge s).1 (b.rangeAge s).1 ∧ veqO (a.rangeAge s).2 (b.rangeAge s).2 := by
+  obtain ⟨_, _, pl, pa⟩ := h.2.2.2.2 s
+  obtain ⟨r1, r2⟩ := range_of_perm pl hl
+  obtain ⟨r3, r4⟩ := range_of_perm (pa.filterMap id) ha
+  exact ⟨r1, r2, r3, r4⟩
+
+/-- **collation_count_bridge**: the number of results the source's collation loop waits for (`Gen/C06Kernels.resultsAwaited`,
+regenerated from `while result_count < …`, temporaries inlined) is one per worker, so the counted collation `runAsyncN` is the
+model's `runAsyncF` whenever one result per worker arrives. -/
+theorem collation_count_bridge (r : Option Bool) (f : Flags) (nw : Nat) (choices arrival : List Nat) (files : List (List TRec))
+    (hlen : arrival.length = nw) :
+    runAsyncN (C06Kernels.resultsAwaited nw files.length) r f nw choices arrival files = runAsyncF r f nw choices arrival files := by
+  simp only [runAsyncN, runAsyncF, C06Kernels.resultsAwaited]
+  rw [List.take_of_length_le (by simp [hlen])]
+
+/-- **serial_ok_every_schedule_ok** (clause d, from the serial outcome alone): if the serial run over sources whose trees all
+have a definite rooting state succeeds, then the sources are of one rooting state compatible with the declared one — and hence
+(`sumtrees_burnin_schedule_independent`) the parallel run returns, never fails and gives the serial observable for every
+burn-in-free schedule, every number of workers ≥ 1 and every arrival order.  Contrapositive: a parallel run that fails under some
+schedule means the serial run fails as well. -/
+theorem serial_ok_every_schedule_ok (fl : Flags) (r : Option Bool) (files : List (List TRec)) (s : TA)
+    (hdef : ∀ f ∈ files, ∀ t ∈ f, t.rooted ≠ none) (hs : runSerial r fl files = .ok s) :
+    ∀ (nw : Nat) (choices arrival : List Nat), 0 < nw → arrival.Perm (List.range nw) →
+      ∃ m, runAsyncFB 0 r fl nw choices arrival files = some (.ok m) ∧ ObsEq m.sd s.sd ∧ m.rows.Perm s.rows ∧ Aligned m := by
+  intro nw choices arrival hnw harr
+  have hd : ∀ t ∈ files.flatten, t.rooted ≠ none := by
+    intro t ht
+    obtain ⟨f, hf, htf⟩ := List.mem_flatten.1 ht
+    exact hdef f hf t htf
+  obtain ⟨h1, h2⟩ := addAll_ok_one_rooting files.flatten (TA.new r fl) s hs hd
+  -- one rooting state ρ for all trees, compatible with the declared one
+  have : ∃ ρ : Option Bool, (∀ f ∈ files, ∀ t ∈ f, t.rooted = ρ) ∧ (r = none ∨ r = ρ) := by
+    cases hr : r with
+    | some b =>
+      refine ⟨some b, ?_, Or.inr rfl⟩
+      intro f hf t ht
+      exact h1 b (by simp [TA.new, hr]) t (List.mem_flatten.2 ⟨f, hf, ht⟩)
+    | none =>
+      cases hfl : files.flatten with
+      | nil =>
+        refine ⟨none, ?_, Or.inl rfl⟩
+        intro f hf t ht
+        have : t ∈ files.flatten := List.mem_flatten.2 ⟨f, hf, ht⟩
+        rw [hfl] at this; cases this
+      | cons u us =>
+        refine ⟨u.rooted, ?_, Or.inl rfl⟩
+        intro f hf t ht
+        exact h2 (by simp [TA.new, hr]) t (List.mem_flatten.2 ⟨f, hf, ht⟩) u (by rw [hfl]; simp)
+  obtain ⟨ρ, htrees, hr⟩ := this
+  obtain ⟨m, s', hm, hs', hobs, hrows, hal⟩ :=
+    sumtrees_burnin_schedule_independent ρ fl r 0 nw choices arrival files hnw harr htrees hr
+  have hb := (burnin_per_source 0 files).1
+  have : s' = s := by
+    simp only [runSerialB, hb, List.drop_zero] at hs'
+    simp only [runSerial, List.flatten_eq_flatMap] at hs
+    have e : files.flatMap (fun x => x) = files.flatMap id := rfl
+    rw [e, hs] at hs'
+    cases hs'; rfl
+  subst this
+  exact ⟨m, hm, hobs, hrows, hal⟩
+
 /-! ### non-vacuity: the hypotheses are satisfiable and the statements say something on a concrete sample -/
 
 section Examples
@@ -2437,6 +2676,31 @@ example : let rT : TRec := { exT1 with rooted := some true }
      (match runAsyncF none exFl 2 [0, 0, 0, 0, 1, 2, 1, 2, 1, 1] [1, 0] [[exT1], [rT]] with | some (.error e) => some e | _ => none),
      (match runSerial none exFl [[exT1], [rT]] with | .error e => some e | _ => none)) =
     ([(true, [0, 1]), (true, [])], some Err.mixedRooting, some Err.incRooting, some Err.mixedRooting) := by decide
+/-- `spread_of_obs` / `range_of_obs` on the example histories: split 6 carries the length 1/2 twice (variance 0, range 1/2..1/2), split 8
+    the default length 0 three times, in both arrays; positive denominators hold -/
+example : ((run [] exSerial).1[0]?.map (fun a => ((a.sd.varLen 6).map (·.render), (a.sd.varLen 10).map (·.render), (a.sd.rangeLen 6).1.map (·.render),
+      (a.sd.rangeLen 6).2.map (·.render)))) = some (some "0", none, some "1/2", some "1/2") ∧
+    ((run [] exNested).1[4]?.map (fun a => ((a.sd.varLen 6).map (·.render), (a.sd.varLen 10).map (·.render), (a.sd.rangeLen 6).1.map (·.render),
+      (a.sd.rangeLen 6).2.map (·.render)))) = some (some "0", none, some "1/2", some "1/2") ∧
+    ((run [] exSerial).1[0]?.map (fun a => (getL 6 a.sd.lens).all (fun x => decide (0 < x.den)))) = some true := by
+  refine ⟨by decide, by decide, by decide⟩
+/-- **fewer_results_lose_a_file**: a collation loop that waits for fewer results than there are workers — e.g. `min(workers, files)` —
+    loses a file under some schedule: two workers, one file holding one tree; worker 0 reads it, the idle worker's empty result arrives
+    first; whatever the smaller count (0 or 1), the parallel run returns an EMPTY summary where the serial run counts the tree; with the
+    count the source has (`resultsAwaited 2 1 = 2`) the same schedule counts it. -/
+theorem fewer_results_lose_a_file : ∀ count, count < 2 → ∃ choices arrival : List Nat, arrival.Perm (List.range 2) ∧
+    (match runAsyncN count none exFl 2 choices arrival [[exT1]] with | some (.ok m) => some m.sd.total | _ => none) = some 0 ∧
+    (match runAsyncN (C06Kernels.resultsAwaited 2 1) none exFl 2 choices arrival [[exT1]] with | some (.ok m) => some m.sd.total | _ => none) = some 1 ∧
+    (match runSerial none exFl [[exT1]] with | .ok s => some s.sd.total | _ => none) = some 1 := by
+  intro count hc
+  refine ⟨[], [1, 0], by decide, ?_, by decide, by decide⟩
+  have : count = 0 ∨ count = 1 := by omega
+  rcases this with rfl | rfl <;> decide
+example : Nat.min 2 1 < 2 := by decide
+/-- `serial_ok_every_schedule_ok`: its hypotheses hold for the two example files (definite rooting states, the serial run succeeds) -/
+example : (∀ f ∈ [[exT1], [exT2, exT1]], ∀ t ∈ f, t.rooted ≠ none) ∧
+    (match runSerial none exFl [[exT1], [exT2, exT1]] with | .ok s => some s.sd.total | _ => none) = some 3 := by
+  refine ⟨by decide, by decide⟩
 end Examples
 
 end DendroModel.C06
